@@ -40,7 +40,7 @@ def run(pid, tier, seed, replay=None):
         ck.mc(DIR, "FlowAlgs", "NC_ff.cfg", expect_violation="MaxAtEnd")
         ck.mc(DIR, "FlowAlgs", "NC_rev.cfg", expect_violation="NeverUsesReverseArc")
         nq = 600 if tier == "quick" else 8000
-        cases = [drv.gen_maxflow(rng, nmax=5 if i % 4 == 0 else 10) for i in range(nq)] + [drv.unit_layered(rng) for _ in range(nq)]
+        cases = [drv.gen_maxflow(rng, nmax=5 if i % 4 == 0 else 10) for i in range(nq)] + [drv.unit_layered(rng) for _ in range(2 * nq)]
         trs = _fix(run_tasks("flow", "run_maxflow", cases, timeout=120), cases, "maxflow")
         bulk = [{"seed": rng.randint(0, 10 ** 9), "count": 6000 if tier == "quick" else 80000} for _ in range(14)]
         cov = {}
